@@ -123,7 +123,7 @@ pcgstrf_pivotL(
     /* Choose appropriate pivotal element by our policy. */
     if ( *usepr == YES ) {
         rtemp = c_abs1 (&lu_col_ptr[old_pivptr]);
-	if ( rtemp != 0.0 && rtemp >= thresh )
+	if ( lsub_ptr[old_pivptr] == *pivrow && rtemp != 0.0 && rtemp >= thresh )
 	    pivptr = old_pivptr;
 	else
 	    *usepr = NO;
